@@ -1063,7 +1063,7 @@ def transform(fn, proceed, to_instrument=True, set_conformer=True):
     new_fn = _compile(filename, new_tree, freevars)
 
     fname = fn.__name__
-    save = glb.get(fname, None)
+    save = glb.get(fname, ABSENT)
     exec(new_fn, glb, glb)
 
     try:
@@ -1088,7 +1088,11 @@ def transform(fn, proceed, to_instrument=True, set_conformer=True):
     glb[fnsym] = actual_fn
 
     # However, we don't want to change the existing mapping of fn
-    glb[fname] = save
+    if save is ABSENT:
+        # There was no global of that name (e.g. fn is a method): leave none
+        glb.pop(fname, None)
+    else:
+        glb[fname] = save
 
     all_vars = transformer.used | transformer.assigned
 
